@@ -27,6 +27,21 @@ type H struct {
 	SeqFirst bool `json:"seq_first,omitempty"`
 }
 
+// pub publishes e, through the static type any when viaAny is set (the
+// handlers are found by the dynamic type either way); ctx == nil uses Publish.
+func pub(bus *eventbus.EventBus, ctx context.Context, e Ev, viaAny bool) {
+	switch {
+	case viaAny && ctx != nil:
+		eventbus.PublishContext[any](bus, ctx, e)
+	case viaAny:
+		eventbus.Publish[any](bus, e)
+	case ctx != nil:
+		eventbus.PublishContext(bus, ctx, e)
+	default:
+		eventbus.Publish(bus, e)
+	}
+}
+
 // asyncSeq returns the option list of an Async+Sequential handler.
 func (h H) asyncSeq() []eventbus.SubscribeOption {
 	if h.SeqFirst {
@@ -37,6 +52,7 @@ func (h H) asyncSeq() []eventbus.SubscribeOption {
 
 // OverlapCase: concurrent publishers against Sequential handlers.
 type OverlapCase struct {
+	ViaAny bool `json:"via_any,omitempty"` // events are published through the static type any
 	Handlers   []H   `json:"handlers"`
 	Publishers []int `json:"publishers"` // events per publisher
 	Procs      int   `json:"procs"`
@@ -197,10 +213,10 @@ func runOverlap(c *OverlapCase, k *counters) *vkit.Outcome {
 					if c.CancelEvery > 0 && k%c.CancelEvery == c.CancelEvery-1 {
 						ctx, cancel := context.WithCancel(context.Background())
 						cancelled.Store(base+k, true)
-						eventbus.PublishContext(bus, ctx, Ev{base + k})
+						pub(bus, ctx, Ev{base + k}, c.ViaAny)
 						cancel()
 					} else {
-						eventbus.Publish(bus, Ev{base + k})
+						pub(bus, nil, Ev{base + k}, c.ViaAny)
 					}
 					kk.published.Add(1)
 					// a synchronous handler has run by the time Publish returns
@@ -277,6 +293,7 @@ func runOverlap(c *OverlapCase, k *counters) *vkit.Outcome {
 
 // OrderCase: one goroutine publishes 0..N-1 to Async+Sequential handlers.
 type OrderCase struct {
+	ViaAny bool `json:"via_any,omitempty"` // events are published through the static type any
 	N        int   `json:"n"`
 	Handlers []H   `json:"handlers"` // Async is forced
 	Work     []int `json:"work"`     // Gosched calls per event inside the handler (cyclic)
@@ -341,9 +358,9 @@ func runOrder(c *OrderCase, k *counters) *vkit.Outcome {
 	}
 	for id := 0; id < c.N; id++ {
 		if c.UseCtx {
-			eventbus.PublishContext(bus, context.Background(), Ev{id})
+			pub(bus, context.Background(), Ev{id}, c.ViaAny)
 		} else {
-			eventbus.Publish(bus, Ev{id})
+			pub(bus, nil, Ev{id}, c.ViaAny)
 		}
 		k.published.Add(1)
 		if len(c.Between) > 0 {
